@@ -441,17 +441,34 @@ func Lattice4(t universe.Affine) []Operand {
 func ConcurrentPairs(level int) [][2]Operand {
 	centres := []universe.LPt{{4, -2}, {1, 1}, {5, 0}, {0, 0}}
 	// extents (a,b): the crossing parameter is a/(a+b); k·fl(a/k) ≠ a only when k = a+b is not of the
-	// form 2^i+2^j (7, 11, 25 here), which is what makes the three float crossing points differ
-	exts := [][2]int{{1, 2}, {14, 11}, {3, 4}, {5, 6}}
+	// form 2^i+2^j (7, 11, 25, 49 here), which is what makes the three float crossing points differ
+	exts := [][2]int{{1, 2}, {14, 11}, {3, 4}, {1, 48}, {5, 6}}
 	dirs := []universe.LPt{{1, 0}, {0, 1}, {1, 1}, {1, -1}, {2, 1}, {1, -2}, {5, 9}, {3, -7}, {9, 5}, {7, 3}}
 	if level == 0 {
 		centres = centres[:2]
-		exts = exts[:3]
-		dirs = dirs[:8]
+		exts = exts[:4]
+		dirs = dirs[:7]
 	}
 	id := universe.Identity
+	// every configuration is mapped by one of the 8 symmetries of the square (chosen by a running
+	// index), so that the rounded crossing points fall on every side of the exact one: node snapping
+	// looks at the 8 neighbouring buckets and each of them must matter for some member of the family
+	symIdx := 0
+	sym := func(p universe.LPt) universe.LPt {
+		s := symIdx % 8
+		if s&1 != 0 {
+			p.X = -p.X
+		}
+		if s&2 != 0 {
+			p.Y = -p.Y
+		}
+		if s&4 != 0 {
+			p.X, p.Y = p.Y, p.X
+		}
+		return p
+	}
 	seg := func(c, d universe.LPt, e [2]int) []universe.LPt {
-		return []universe.LPt{{X: c.X - e[0]*d.X, Y: c.Y - e[0]*d.Y}, {X: c.X + e[1]*d.X, Y: c.Y + e[1]*d.Y}}
+		return []universe.LPt{sym(universe.LPt{X: c.X - e[0]*d.X, Y: c.Y - e[0]*d.Y}), sym(universe.LPt{X: c.X + e[1]*d.X, Y: c.Y + e[1]*d.Y})}
 	}
 	var out [][2]Operand
 	for _, c := range centres {
@@ -464,6 +481,7 @@ func ConcurrentPairs(level int) [][2]Operand {
 					for _, e1 := range exts {
 						for _, e2 := range exts {
 							for _, e3 := range exts {
+								symIdx++
 								s1, s2, s3 := seg(c, dirs[i], e1), seg(c, dirs[j], e2), seg(c, dirs[k], e3)
 								a := geom.NewMultiLineString([]geom.LineString{id.Line(s1), id.Line(s2)}).AsGeometry()
 								b := id.Line(s3).AsGeometry()
@@ -471,7 +489,7 @@ func ConcurrentPairs(level int) [][2]Operand {
 								if k > j && e1 == e2 {
 									// triangle with the edge s3 through the centre, apex on the left of it
 									d := dirs[k]
-									apex := universe.LPt{X: c.X - 3*d.Y, Y: c.Y + 3*d.X}
+									apex := sym(universe.LPt{X: c.X - 3*d.Y, Y: c.Y + 3*d.X})
 									tri := id.Polygon([]universe.LPt{s3[0], s3[1], apex, s3[0]}).AsGeometry()
 									out = append(out, [2]Operand{mkOp(tri, "poly"), mkOp(a, "multi")})
 								}
